@@ -563,5 +563,5 @@ func main() {
 		"the provider answers truthfully: Delete/Get return NotFound exactly when the instance does not exist",
 		"duplicate NodeClaims for one provider id, stale informer reads, registration/initialization/liveness are outside the model",
 	}}
-	c.Finish("From KV Require Import C09.Model C09.Check.", "case", "check_all", 150)
+	c.Finish("From KV Require Import C09.Model C09.Check.", "case", "check_all", 600)
 }
